@@ -422,6 +422,22 @@ impl<T: SnapTunAuthorization> SnapTunServer<T> {
     }
 }
 
+/// Verification hooks (read-only view of the private tunnel table; compiled only with the
+/// `verif-hooks` feature).
+#[cfg(feature = "verif-hooks")]
+impl<T: SnapTunAuthorization> SnapTunServer<T> {
+    /// Returns the active tunnel table as (remote socket address, peer static identity), sorted.
+    pub fn verif_tunnels(&self) -> Vec<(SocketAddr, [u8; 32])> {
+        let mut v: Vec<_> = self
+            .active_tunnels
+            .iter()
+            .map(|(a, t)| (*a, *t.peer_static.as_bytes()))
+            .collect();
+        v.sort();
+        v
+    }
+}
+
 /// Authorization layer for the snaptun server.
 pub trait SnapTunAuthorization: Send + Sync {
     /// Immutable session data that downstream dataplane consumers may read.
